@@ -17,6 +17,26 @@ impl Wake for Noop {
     fn wake(self: Arc<Self>) {}
 }
 
+/// The persistent waker of a simulated thread: unparks it.
+struct ThreadWaker(shuttle::thread::Thread);
+impl Wake for ThreadWaker {
+    fn wake(self: Arc<Self>) {
+        self.0.unpark();
+    }
+    fn wake_by_ref(self: &Arc<Self>) {
+        self.0.unpark();
+    }
+}
+
+fn poll_with(sub: &mut Subscriber<u64>, wk: &Waker) -> PollR {
+    let mut cx = Context::from_waker(wk);
+    match Pin::new(sub).poll_next(&mut cx) {
+        Poll::Pending => PollR::Pending,
+        Poll::Ready(None) => PollR::End,
+        Poll::Ready(Some(v)) => PollR::Some(v),
+    }
+}
+
 #[derive(Default)]
 pub struct Shared {
     seq: AtomicU64,
@@ -63,6 +83,7 @@ fn poll_once(sub: &mut Subscriber<u64>) -> PollR {
 pub const ORACLE: &str = "ORACLE";
 
 fn run_thread(tid: usize, ops: &[Op], mut h: Handles, sh: &Shared, collect: bool) -> Handles {
+    let own_waker: Waker = Waker::from(Arc::new(ThreadWaker(shuttle::thread::current())));
     for op in ops {
         let inv = sh.stamp();
         match op {
@@ -251,6 +272,68 @@ fn run_thread(tid: usize, ops: &[Op], mut h: Handles, sh: &Shared, collect: bool
             }
             Op::SubDrop => {
                 h.subs.pop();
+            }
+            Op::WaitThenNextNow => {
+                if collect {
+                    continue;
+                }
+                if h.subs.is_empty() {
+                    continue;
+                }
+                // a thread that waits must not be an owner itself
+                if let Some(u) = h.uniq.take() {
+                    let i = sh.stamp();
+                    drop(u);
+                    sh.rec_drop(tid, i);
+                }
+                while let Some(o) = h.owners.pop() {
+                    let i = sh.stamp();
+                    drop(o);
+                    sh.rec_drop(tid, i);
+                }
+                let (id, s) = h.subs.last_mut().unwrap();
+                let i = sh.stamp();
+                let r = poll_with(s, &own_waker);
+                sh.rec(tid, HOp::Poll(*id), i, Res::Poll(r.clone()));
+                if r == PollR::Pending {
+                    // woken by the next update or by the close (or never: a lost wake-up)
+                    shuttle::thread::park();
+                }
+                let i = sh.stamp();
+                let v = s.next_now();
+                sh.rec(tid, HOp::NextNow(*id), i, Res::Val(v));
+            }
+            Op::BlockUntilEndSame => {
+                if collect {
+                    continue;
+                }
+                if let Some(u) = h.uniq.take() {
+                    let i = sh.stamp();
+                    drop(u);
+                    sh.rec_drop(tid, i);
+                }
+                while let Some(o) = h.owners.pop() {
+                    let i = sh.stamp();
+                    drop(o);
+                    sh.rec_drop(tid, i);
+                }
+                for k in 0..h.subs.len() {
+                    let mut i = sh.stamp();
+                    loop {
+                        let (id, s) = &mut h.subs[k];
+                        match poll_with(s, &own_waker) {
+                            PollR::Pending => shuttle::thread::park(),
+                            PollR::Some(v) => {
+                                sh.rec(tid, HOp::Next(*id), i, Res::Poll(PollR::Some(v)));
+                                i = sh.stamp();
+                            }
+                            PollR::End => {
+                                sh.rec(tid, HOp::Next(*id), i, Res::Poll(PollR::End));
+                                break;
+                            }
+                        }
+                    }
+                }
             }
             Op::BlockUntilEnd => {
                 if collect {
